@@ -17,11 +17,15 @@
 //!   S4   A and B edit o1 concurrently, A (subject) melds B + refresh: OBJECT conflict, nothing staged; S4s + staged edit
 //!   S5a  A appends k5, B appends k6 to list♭, A melds B + refresh: ARRAY conflict; S5as + a staged update_object
 //!   S5b  A reverses list♭, B removes its first element; S5bs + a staged update_object
+//!   S7v  three commits of o1: light -> dark -> light (the last block records a change but lists NO pack: the value is
+//!        already stored); S7d  the last commit is a deletion only (no pack); S7r  S4 + resolve_as(o1, winner) committed
+//!        (a resolution-only block without pack) — all three with nothing staged
 //!   S6 / S6s  like S2c / S2 with more array versions and both LRU caches capped at ONE entry
 //!        (MELDA_ARRAYDESCRIPTORS_CACHE_CAP / MELDA_DATA_CACHE_CAP = 1; there is no constructor taking cache sizes)
 //! Operations (each in every situation where it is defined), observation before == after:
 //!   commit, commit-info      with staged changes: Ok(Some); then a reopened replica shows the same (not in S3*, where
 //!                            storage holds blocks the subject has not applied)
+//!   commit-propagates        (S4s, S5as, S5bs) commit, then the peer melds the subject + refresh: same document and conflicts
 //!   commit-nothing           nothing staged: Ok(None), anchors and stored items unchanged
 //!   snapshot-only            stage_full_snapshot() twice, no commit: Ok, unchanged
 //!   snapshot                 stage_full_snapshot(): Ok, unchanged; commit (if something got staged): unchanged; reopen
@@ -147,6 +151,17 @@ fn sync(dst: &mut Melda, src: &Melda, what: &str) -> Result<(), String> {
     orch::ge(&format!("{}: refresh", what), || dst.refresh())
 }
 
+/// the situation is only what it claims to be if the block of the last commit lists no pack
+fn no_pack_in_last_block(m: &Melda) -> Result<(), String> {
+    let heads = orch::g(|| m.get_anchors()).map_err(|p| format!("panic in get_anchors: {}", p))?;
+    let id = heads.iter().next().cloned().ok_or("driver: no head")?;
+    let d = orch::ge("get_delta", || m.get_delta(&id))?.ok_or("driver: get_delta(head) is None")?;
+    match &d.packs {
+        Some(p) if !p.is_empty() => Err(format!("driver: the last block lists packs {:?}", p)),
+        _ => Ok(()),
+    }
+}
+
 fn stranger() -> Result<Melda, String> {
     let o = orch::open(&orch::mem())?;
     let mut d = Map::new();
@@ -157,7 +172,7 @@ fn stranger() -> Result<Melda, String> {
     Ok(o)
 }
 
-const SITUATIONS: [&str; 13] = ["S1", "S2c", "S2", "S3", "S3s", "S4", "S4s", "S5a", "S5as", "S5b", "S5bs", "S6", "S6s"];
+const SITUATIONS: [&str; 16] = ["S1", "S2c", "S2", "S3", "S3s", "S4", "S4s", "S5a", "S5as", "S5b", "S5bs", "S7v", "S7d", "S7r", "S6", "S6s"];
 
 fn build(sit: &str, script: usize, seed: u64) -> Result<Sit, String> {
     let mut rng = if script == 0 { None } else { Some(Rng::new(seed.wrapping_mul(7919).wrapping_add(script as u64))) };
@@ -190,6 +205,26 @@ fn build(sit: &str, script: usize, seed: u64) -> Result<Sit, String> {
             }
             Ok(Sit { m, ad, peer: stranger()?, storage_applied: true })
         }
+        "S7v" | "S7d" => {
+            // the LAST commit writes no pack: a value set back to one that is already stored (light -> dark -> light),
+            // or a deletion only
+            let m = orch::open(&ad)?;
+            upd(&m, &model, "update")?;
+            commit_some(&m, "commit 1")?;
+            model.edit(&mut rng);
+            upd(&m, &model, "update")?;
+            commit_some(&m, "commit 2")?;
+            if sit == "S7v" {
+                orch::ge("update_object(o1, dark)", || m.update_object("o1", orch::obj(json!({"v": "dark"}))))?;
+                commit_some(&m, "commit dark")?;
+                orch::ge("update_object(o1, light)", || m.update_object("o1", orch::obj(json!({"v": model.o1}))))?;
+            } else {
+                orch::ge("delete_object(o1)", || m.delete_object("o1"))?;
+            }
+            commit_some(&m, "commit without pack")?;
+            no_pack_in_last_block(&m)?;
+            Ok(Sit { m, ad, peer: stranger()?, storage_applied: true })
+        }
         "S3" | "S3s" => {
             let a = orch::open(&orch::mem())?;
             upd(&a, &model, "A.update")?;
@@ -217,7 +252,7 @@ fn build(sit: &str, script: usize, seed: u64) -> Result<Sit, String> {
             let mut b = orch::open(&orch::mem())?;
             sync(&mut b, &a, "B takes the base")?;
             let mut mb = model.clone();
-            if sit.starts_with("S4") {
+            if sit.starts_with("S4") || sit == "S7r" {
                 model.mutate(0);
                 model.mutate(2);
                 upd(&a, &model, "A.update")?;
@@ -238,11 +273,18 @@ fn build(sit: &str, script: usize, seed: u64) -> Result<Sit, String> {
             sync(&mut a, &b, "A melds B")?;
             let conflicts = orch::g(|| a.in_conflict()).map_err(|p| format!("panic in in_conflict: {}", p))?;
             let array_conflict = conflicts.iter().any(|o| o.starts_with('^'));
-            if sit.starts_with("S4") && (array_conflict || !conflicts.contains("o1")) {
+            if (sit.starts_with("S4") || sit == "S7r") && (array_conflict || !conflicts.contains("o1")) {
                 return Err(format!("driver: S4 expects exactly an object conflict on o1, got {:?}", conflicts));
             }
             if sit.starts_with("S5") && !array_conflict {
                 return Err(format!("driver: S5 expects an array conflict, got {:?}", conflicts));
+            }
+            if sit == "S7r" {
+                // a commit that only records the resolution of the object conflict: no new content, no pack
+                let w = orch::ge("get_winner(o1)", || a.get_winner("o1"))?;
+                orch::ge("resolve_as(o1, winner)", || a.resolve_as("o1", &w))?;
+                commit_some(&a, "commit of the resolution")?;
+                no_pack_in_last_block(&a)?;
             }
             if sit.ends_with('s') {
                 if sit.starts_with("S4") {
@@ -320,8 +362,9 @@ impl Verdict {
     }
 }
 
-const OPS: [&str; 14] = [
+const OPS: [&str; 15] = [
     "snapshot-only",
+    "commit-propagates",
     "commit",
     "commit-info",
     "commit-nothing",
@@ -347,6 +390,8 @@ fn defined(sit: &str, op: &str) -> bool {
     let unapplied = sit.starts_with("S3");
     match op {
         "commit" | "commit-info" => staged,
+        // the peer shares the subject's history only in the diverged situations
+        "commit-propagates" => staged && (sit.starts_with("S4") || sit.starts_with("S5")),
         "refresh-after-commit" | "reload-after-commit" => staged && !unapplied,
         "commit-nothing" => !staged,
         "refresh" | "meld-refresh-nothing-new" | "reload" | "reopen" => !staged && !unapplied,
@@ -355,7 +400,7 @@ fn defined(sit: &str, op: &str) -> bool {
 }
 
 fn may_hang(sit: &str, op: &str) -> bool {
-    sit.starts_with("S5") && matches!(op, "commit" | "commit-info" | "snapshot" | "refresh-after-commit" | "reload-after-commit")
+    sit.starts_with("S5") && matches!(op, "commit" | "commit-info" | "commit-propagates" | "snapshot" | "refresh-after-commit" | "reload-after-commit")
 }
 
 fn reopened(s: &Sit, v: &mut Verdict, after: &Obs, ctx: &str) {
@@ -421,6 +466,24 @@ fn run_case_inner(sit: &str, script: usize, seed: u64, op: &str) -> Result<Verdi
                 let after = obs(&s.m);
                 v.same(&before, &after, "after the commit", true, false);
                 reopened(&s, &mut v, &after, "after the commit");
+            }
+        }
+        "commit-propagates" => {
+            if commit(&s.m, &mut v, None, op) {
+                let after = obs(&s.m);
+                v.same(&before, &after, "after the commit", true, false);
+                match sync(&mut s.peer, &s.m, "the peer melds the subject and refreshes") {
+                    Err(e) => v.bad.push(e),
+                    Ok(()) => {
+                        let op_ = obs(&s.peer);
+                        if op_.read != after.read {
+                            v.bad.push(format!("the peer after meld + refresh reads {} but the committing replica {}", op_.read, after.read));
+                        }
+                        if op_.conflicts != after.conflicts {
+                            v.bad.push(format!("the peer after meld + refresh has conflicts {:?} but the committing replica {:?}", op_.conflicts, after.conflicts));
+                        }
+                    }
+                }
             }
         }
         "commit-nothing" => {
@@ -673,9 +736,9 @@ pub fn run(thorough: bool, seed: u64) -> Report {
     let mut rep = Report::new(
         "maintenance",
         if thorough {
-            "13 situations (S1 staged only; S2c/S2 committed / + staged; S3/S3s melded but not refreshed; S4/S4s object conflict; S5a/S5as, S5b/S5bs array conflict append|append and reverse|remove; S6/S6s both LRU caches capped at 1) x 12 edit scripts (script 0 fixed, 11 seeded) x every defined operation out of {snapshot-only, commit, commit-info, commit-nothing, snapshot, meld-in, meld-out, refresh, meld-refresh-nothing-new, refresh-after-commit, reload-after-commit, reload, reopen, stage-export}"
+            "16 situations (S1 staged only; S2c/S2 committed / + staged; S3/S3s melded but not refreshed; S4/S4s object conflict; S5a/S5as, S5b/S5bs array conflict append|append and reverse|remove; S7v/S7d/S7r last block without pack: value set back, deletion only, resolution only; S6/S6s both LRU caches capped at 1) x 12 edit scripts (script 0 fixed, 11 seeded) x every defined operation out of {snapshot-only, commit-propagates, commit, commit-info, commit-nothing, snapshot, meld-in, meld-out, refresh, meld-refresh-nothing-new, refresh-after-commit, reload-after-commit, reload, reopen, stage-export}"
         } else {
-            "13 situations (S1 staged only; S2c/S2 committed / + staged; S3/S3s melded but not refreshed; S4/S4s object conflict; S5a/S5as, S5b/S5bs array conflict append|append and reverse|remove; S6/S6s both LRU caches capped at 1) x 2 edit scripts (script 0 fixed, 1 seeded) x every defined operation out of {snapshot-only, commit, commit-info, commit-nothing, snapshot, meld-in, meld-out, refresh, meld-refresh-nothing-new, refresh-after-commit, reload-after-commit, reload, reopen, stage-export}"
+            "16 situations (S1 staged only; S2c/S2 committed / + staged; S3/S3s melded but not refreshed; S4/S4s object conflict; S5a/S5as, S5b/S5bs array conflict append|append and reverse|remove; S7v/S7d/S7r last block without pack: value set back, deletion only, resolution only; S6/S6s both LRU caches capped at 1) x 2 edit scripts (script 0 fixed, 1 seeded) x every defined operation out of {snapshot-only, commit-propagates, commit, commit-info, commit-nothing, snapshot, meld-in, meld-out, refresh, meld-refresh-nothing-new, refresh-after-commit, reload-after-commit, reload, reopen, stage-export}"
         },
         "exhaustive over situations x scripts x defined operations; one case each (situation rebuilt, observation before == after, reopen where something was persisted); every case non-trivial; each case guarded in its own thread with a 5 s limit, unfinished cases are booked as hang:<case id> and the oracle goes on",
     );
